@@ -27,7 +27,7 @@ theorem decimal_casters_reject_yaml_ints :
 /-- the float casters before the round-5 repair (`strconv.ParseInt(plain, 0, 64)` first, not `ParseYAMLInt`): yaml.v3 reads
     the plain literal `0b+1` as the integer 1 (its sign-after-prefix quirk, `yamlInt`), `toInt` read it since round 2, but
     `toFloat` went on to `strconv.ParseFloat`, which rejects it — `cpu_percent: 0b+1` loaded, `${V}` with `0b+1` was a cast
-    error.  Repaired by d32a901 (`Props/C08Float.lean: literal_eq_variable_float`); replayed by corpus/C08/float-prefix-sign.json -/
+    error.  Repaired by c708a21 (`Props/C08Float.lean: literal_eq_variable_float`); replayed by corpus/C08/float-prefix-sign.json -/
 theorem float_casters_literal_eq_variable_false_before_repair :
     ¬ (∀ (parse : String → Option String) (ofInt : Int → String) (s : String) (i : Int),
         yamlInt s = some i → parseYAMLFloatOld parse ofInt s = some (ofInt i)) := by
